@@ -254,6 +254,8 @@ def write_harness(ctx, cfg):
     order = list(range(k))
     if k > 1 and ctx.choice('order', 2):
         order.reverse()
+    pre = [D.arr_cells(h.arr) for h in hs]
+    pre = [(list(d), list(m) if m is not None else None) for d, m, _ in pre]
     del WRITTEN[:]
     TABLE.clear()
     try:
@@ -269,6 +271,15 @@ def write_harness(ctx, cfg):
         obs.append((label, term if z3.is_expr(term) else z3.BoolVal(bool(term))))
         groups[label] = group
     ob('writing succeeds (%s)' % oc, oc == 'ok', 'write-outcome')
+    # the written results themselves are left as they were (other commands read them afterwards)
+    for j, h in enumerate(hs):
+        d2, m2, _ = D.arr_cells(h.arr)
+        d0, m0 = pre[j]
+        for r in range(n):
+            mk0 = m0[r] if m0 is not None else z3.BoolVal(False)
+            mk2 = m2[r] if m2 is not None else z3.BoolVal(False)
+            ob('%s cell %d: missing before <=> missing after the write' % (h.command.result_name, r), mk2 == mk0, 'write-input-mask')
+            ob('%s cell %d: non-missing value unchanged by the write' % (h.command.result_name, r), z3.Or(mk0, d2[r] == d0[r]), 'write-input-value')
     if oc == 'ok':
         ob('the file is opened for writing', TABLE.get('opened') == [('/data/out.csv', 'w')], 'write-open')
         ob('header + one row per cell', len(WRITTEN) == n + 1, 'write-rows')
